@@ -73,6 +73,8 @@ def parseOp (ws : List String) : Option Op :=
     let rows ← if rows == "-" then some none else (parseLabels rows).map some
     let trees ← if trees == "-" then some none else (parseDocs trees).map some
     some (.dsread (← d.toNat?) (← parseLabels taxa) rows trees)
+  | ["newtreeseed", l, t] => do some (.newtreeseed (← l.toNat?) (← t.toNat?))
+  | ["treeseed", n, t] => do some (.treeseed (← parseONat n) (← t.toNat?))
   | ["taadd", n, t] => do some (.taadd (← n.toNat?) (← t.toNat?))
   | _ => none
 
